@@ -5,6 +5,7 @@ import (
 
 	"pgregory.net/rapid"
 
+	"verifharness/internal/ev"
 	"verifharness/internal/gen"
 )
 
@@ -190,14 +191,19 @@ func genIDs(t *rapid.T, maxOps int, pool []uint64) []uint64 {
 	return ids
 }
 
-// genSize: most unions small (they shrink and read well), some up to 300 ids.
+// genSize: most unions small (they shrink and read well), some up to 300 ids;
+// the thorough tier shifts the mix towards the large ones.
 func genSize(t *rapid.T) int {
-	switch rapid.IntRange(0, 9).Draw(t, "size") {
-	case 0, 1, 2, 3:
+	k := rapid.IntRange(0, 9).Draw(t, "size")
+	if ev.Thorough() {
+		k += 3
+	}
+	switch {
+	case k <= 3:
 		return 6
-	case 4, 5, 6:
+	case k <= 6:
 		return 20
-	case 7, 8:
+	case k <= 9:
 		return 60
 	default:
 		return 150
